@@ -7,6 +7,7 @@
 //        (a bit of a 130-bit std::vector<bool> at position pos; every other bit must stay unchanged); prev = previous content
 //   gf2desc <way>                      -> "card char size residu zero one mone cardI charI min max"
 //   ext <gfq|mod> <pe|bf|pol> <p> <k> [| c0 .. ck]   -> "E <card> <cardI> <char> <charI> <expo> <order> I <irred p-adic> Z <zero> <one> <mone>"
+//   erand <arg> <n>                    -> n draws of Extension::RandIter(F, arg): "<zero draws> <invalid draws> <same sequence twice>"
 //   eop <variant> a b c                -> p-adic value of the result (operands are p-adic values < p^k)
 //   gext <ext|fast> <p> <k> <way> <p2> <k2> [| c0 .. ck]  -> "G <q> <irred> <gen> <card> <char> <expo> H <hash log2pol> Q <bits> <base> <mask> <maxdot> <char(UTT&)> <X>"
 //        way: d constructed in place, c copy-constructed (source destroyed), a assigned over a default-constructed object,
@@ -131,6 +132,17 @@ template <class Base> struct ExtS : public Session {
             for (size_t i = 3; i < t.size() && i < 6; ++i) vals[i - 3] = elt(t[i]);
             if (!c05_fill(t[1], t[2], sl, vals) || !c05_call(*F, t[1], t[2], sl)) return "UNKNOWN-OP";
             std::ostringstream o; o << val(sl[t[2][0] - '0']); return o.str();
+        }
+        if (t[0] == "erand") {     // erand <second constructor argument> <n>: n draws of Ext::RandIter(F, arg) -> "<zero draws> <invalid draws> <same sequence from a second iterator 0/1>"
+            typename Ext::RandIter g((*F), Integer(t[1].c_str())), g2((*F), Integer(t[1].c_str()));
+            int n = atoi(t[2].c_str()), zeros = 0, invalid = 0, same = 1;
+            for (int i = 0; i < n; ++i) {
+                Elt x, y; g.random(x); g2.random(y);
+                if (F->isZero(x)) ++zeros;
+                if (val(x) < 0 || x.size() > (size_t)F->order()) ++invalid;
+                if (val(x) != val(y)) same = 0;
+            }
+            std::ostringstream o; o << zeros << " " << invalid << " " << same; return o.str();
         }
         if (t[0] != "eop") return "BAD-LINE";
         const std::string& v = t[1];
